@@ -514,6 +514,52 @@ structure Good (cap : Cap) (L R : Bool) (p : Pool) : Prop extends Good0 cap L R 
   acc : AccOK p
   canc : CancOK p
 
+/-! ### what never goes back -/
+
+/-- `q` is a later state than `p` as far as the monotone facts go: tasks and requests are only ever appended, a finished
+task stays finished, the progress counters of a request never decrease, a cancellation snapshot once taken is never
+rewritten, a request that has an outcome keeps one, a closed pool stays closed -/
+structure Mono (p q : Pool) : Prop where
+  tl : p.tasks.length ≤ q.tasks.length
+  fin : ∀ (t : Nat) (tk : PTask), p.tasks[t]? = some tk → tk.phase = .finished →
+        ∃ tk', q.tasks[t]? = some tk' ∧ tk'.phase = .finished
+  rl : p.reqs.length ≤ q.reqs.length
+  rq : ∀ (m : Nat) (r : Req), p.reqs[m]? = some r → ∃ r', q.reqs[m]? = some r' ∧ r.created ≤ r'.created ∧
+        r.pulled ≤ r'.pulled ∧ (∀ s, r.cancelSnap = some s → r'.cancelSnap = some s) ∧
+        (r.outcome.isSome = true → r'.outcome.isSome = true)
+  cl : p.closed = true → q.closed = true
+
+theorem Mono.refl (p : Pool) : Mono p p :=
+  ⟨Nat.le_refl _, fun _ tk a b => ⟨tk, a, b⟩, Nat.le_refl _,
+   fun _ r a => ⟨r, a, Nat.le_refl _, Nat.le_refl _, fun _ h => h, fun h => h⟩, fun h => h⟩
+
+theorem Mono.trans {p q r : Pool} (h1 : Mono p q) (h2 : Mono q r) : Mono p r := by
+  refine ⟨Nat.le_trans h1.tl h2.tl, ?_, Nat.le_trans h1.rl h2.rl, ?_, fun h => h2.cl (h1.cl h)⟩
+  · intro t tk a b
+    obtain ⟨tk', a', b'⟩ := h1.fin t tk a b
+    exact h2.fin t tk' a' b'
+  · intro m x a
+    obtain ⟨x', a', c1, c2, c3, c4⟩ := h1.rq m x a
+    obtain ⟨x'', a'', d1, d2, d3, d4⟩ := h2.rq m x' a'
+    exact ⟨x'', a'', Nat.le_trans c1 d1, Nat.le_trans c2 d2, fun s hs => d3 s (c3 s hs), fun h => d4 (c4 h)⟩
+
+/-- requests rewritten one by one without touching what `Mono` reads; tasks keep their phases -/
+theorem Mono.of_parts (p q : Pool) (htl : p.tasks.length ≤ q.tasks.length)
+    (hfin : ∀ (t : Nat) (tk : PTask), p.tasks[t]? = some tk → tk.phase = .finished →
+        ∃ tk', q.tasks[t]? = some tk' ∧ tk'.phase = .finished)
+    (hrl : p.reqs.length ≤ q.reqs.length)
+    (hrq : ∀ (m : Nat) (r : Req), p.reqs[m]? = some r → ∃ r', q.reqs[m]? = some r' ∧ r'.created = r.created ∧
+        r'.pulled = r.pulled ∧ (∀ s, r.cancelSnap = some s → r'.cancelSnap = some s) ∧
+        (r.outcome.isSome = true → r'.outcome.isSome = true))
+    (hcl : q.closed = p.closed) : Mono p q :=
+  ⟨htl, hfin, hrl, fun m r a => by
+      obtain ⟨r', b, c1, c2, c3, c4⟩ := hrq m r a
+      exact ⟨r', b, by omega, by omega, c3, c4⟩, fun h => by rw [hcl]; exact h⟩
+
+theorem Mono.of_eq (p q : Pool) (ht : q.tasks = p.tasks) (hr : q.reqs = p.reqs) (hc : q.closed = p.closed) : Mono p q :=
+  Mono.of_parts p q (by rw [ht]; exact Nat.le_refl _) (fun t tk a b => ⟨tk, by rw [ht]; exact a, b⟩) (by rw [hr]; exact Nat.le_refl _)
+    (fun m r a => ⟨r, by rw [hr]; exact a, rfl, rfl, fun _ h => h, fun h => h⟩) hc
+
 /-- `q` is `p` up to changes that neither move a slot nor put a task (back) into a slot-holding phase -/
 structure Tame0 (p q : Pool) : Prop where
   val : q.sem.value = p.sem.value
@@ -537,6 +583,7 @@ structure Tame (p q : Pool) : Prop extends Tame0 p q where
   rq : ∀ (m : Nat) (r' : Req), q.reqs[m]? = some r' →
         (∃ r : Req, p.reqs[m]? = some r ∧ MSigLe r' r) ∨ (p.reqs.length ≤ m ∧ FreshReq r')
   cok : ∀ E : Nat → Prop, CancEx E p → CancEx E q
+  mono : Mono p q
 
 theorem Tame0.pt {p q : Pool} (h : Tame0 p q) (t : Nat) (tk' : PTask) (ht : q.tasks[t]? = some tk') :
     ∃ tk : PTask, p.tasks[t]? = some tk ∧ tk'.released = tk.released ∧ (tk'.phase = tk.phase ∨ NYR tk'.phase = false) := by
@@ -603,7 +650,7 @@ theorem Tame0.refl (p : Pool) : Tame0 p p :=
   ⟨rfl, rfl, rfl, rfl, rfl, rfl, rfl, fun h => h, List.Sublist.refl _, fun _ tk' h => ⟨tk', h, rfl⟩, rfl, fun h => h, fun h => h, rfl⟩
 
 theorem Tame.refl (p : Pool) : Tame p p :=
-  ⟨Tame0.refl p, Nat.le_refl _, fun _ r' h => Or.inl ⟨r', h, MSigLe.refl r'⟩, fun _ h => h⟩
+  ⟨Tame0.refl p, Nat.le_refl _, fun _ r' h => Or.inl ⟨r', h, MSigLe.refl r'⟩, fun _ h => h, Mono.refl p⟩
 
 theorem Tame0.trans {p q r : Pool} (h1 : Tame0 p q) (h2 : Tame0 q r) : Tame0 p r := by
   refine ⟨h2.val.trans h1.val, h2.grants.trans h1.grants, h2.len.trans h1.len, h2.run.trans h1.run,
@@ -615,7 +662,7 @@ theorem Tame0.trans {p q r : Pool} (h1 : Tame0 p q) (h2 : Tame0 q r) : Tame0 p r
   exact ⟨tk, hp, e2.trans e1⟩
 
 theorem Tame.trans {p q r : Pool} (h1 : Tame p q) (h2 : Tame q r) : Tame p r := by
-  refine ⟨h1.toTame0.trans h2.toTame0, Nat.le_trans h1.rql h2.rql, ?_, fun E h => h2.cok E (h1.cok E h)⟩
+  refine ⟨h1.toTame0.trans h2.toTame0, Nat.le_trans h1.rql h2.rql, ?_, fun E h => h2.cok E (h1.cok E h), h1.mono.trans h2.mono⟩
   intro m r'' h
   rcases h2.rq m r'' h with ⟨r', hq, e2⟩ | ⟨hge, hf⟩
   · rcases h1.rq m r' hq with ⟨r, hp, e1⟩ | ⟨hge, hf⟩
@@ -853,10 +900,10 @@ theorem tame_of_eq (p q : Pool) (hs : q.sem = p.sem) (ht : q.tasks = p.tasks)
     (h3 : q.ended = p.ended := by rfl) (h4 : q.lost = p.lost := by rfl)
     (h5 : (flat q.groups).Sublist (flat p.groups) := by exact List.Sublist.refl _)
     (h6 : q.apis = p.apis := by rfl) (h7 : q.reqs = p.reqs := by rfl) (h8 : q.gathers = p.gathers := by rfl)
-    (h9 : q.resized = p.resized := by rfl) : Tame p q := by
+    (h9 : q.resized = p.resized := by rfl) (h10 : q.closed = p.closed := by rfl) : Tame p q := by
   refine ⟨⟨by rw [hs], by rw [hs], by rw [ht], h1, h2, h3, h4, by rw [hs]; exact fun h => h, h5, ?_, by rw [h6],
     fun h => h.of_soft h8 h6 (by rw [ht]) (fun t tk' h => by rw [ht] at h; exact ⟨tk', h, rfl⟩),
-    fun h => h.of_eq hs h9, h9⟩, by rw [h7]; exact Nat.le_refl _, ?_, fun _ h => h.of_eq h7 (by rw [hs])⟩
+    fun h => h.of_eq hs h9, h9⟩, by rw [h7]; exact Nat.le_refl _, ?_, fun _ h => h.of_eq h7 (by rw [hs]), Mono.of_eq p q ht h7 h10⟩
   · intro t tk' h; rw [ht] at h; exact ⟨tk', h, rfl⟩
   · intro m r' h; rw [h7] at h; exact Or.inl ⟨r', h, MSigLe.refl r'⟩
 
@@ -867,11 +914,20 @@ theorem tame_of_map (p q : Pool) (f : Req → Req) (hs : q.sem = p.sem) (ht : q.
     (h3 : q.ended = p.ended := by rfl) (h4 : q.lost = p.lost := by rfl)
     (h5 : (flat q.groups).Sublist (flat p.groups) := by exact List.Sublist.refl _)
     (h6 : q.apis = p.apis := by rfl) (h8 : q.gathers = p.gathers := by rfl) (h9 : q.resized = p.resized := by rfl)
-    (hc : ∀ x, CSame (f x) x := by intro x; first | exact ⟨rfl, rfl, rfl, Or.inl rfl, fun h => Or.inl h, fun _ h => Or.inl h⟩ | (split <;> exact ⟨rfl, rfl, rfl, Or.inl rfl, fun h => Or.inl h, fun _ h => Or.inl h⟩)) :
+    (hc : ∀ x, CSame (f x) x := by intro x; first | exact ⟨rfl, rfl, rfl, Or.inl rfl, fun h => Or.inl h, fun _ h => Or.inl h⟩ | (split <;> exact ⟨rfl, rfl, rfl, Or.inl rfl, fun h => Or.inl h, fun _ h => Or.inl h⟩))
+    (h10 : q.closed = p.closed := by rfl) :
     Tame p q := by
   refine ⟨⟨by rw [hs], by rw [hs], by rw [ht], h1, h2, h3, h4, by rw [hs]; exact fun h => h, h5, ?_, by rw [h6],
     fun h => h.of_soft h8 h6 (by rw [ht]) (fun t tk' h => by rw [ht] at h; exact ⟨tk', h, rfl⟩),
-    fun h => h.of_eq hs h9, h9⟩, by rw [h7]; simp, ?_, ?_⟩
+    fun h => h.of_eq hs h9, h9⟩, by rw [h7]; simp, ?_, ?_, ?_⟩
+  rotate_left 3
+  · refine Mono.of_parts p q (by rw [ht]; exact Nat.le_refl _) (fun t tk a b => ⟨tk, by rw [ht]; exact a, b⟩) (by rw [h7]; simp) ?_ h10
+    intro m r a
+    refine ⟨f r, by rw [h7, List.getElem?_map, a]; rfl, (hc r).cr, (hc r).pu, fun s hs' => by rw [(hc r).cs]; exact hs', fun ho => ?_⟩
+    have := (hf r).out
+    cases hfo : (f r).outcome with
+    | none => rw [this hfo] at ho; cases ho
+    | some _ => rfl
   · intro t tk' h; rw [ht] at h; exact ⟨tk', h, rfl⟩
   · intro m r' h
     rw [h7, List.getElem?_map] at h
@@ -918,7 +974,12 @@ theorem tame_modTask (p : Pool) (t : Nat) (f : PTask → PTask)
     · rfl
   refine ⟨⟨rfl, rfl, by simp [modTask], rfl, rfl, rfl, rfl, fun h => h, List.Sublist.refl _, hsoft, rfl,
     fun h => h.of_soft rfl rfl (by simp [modTask]) hsoft, fun h => h.of_eq rfl rfl, rfl⟩, Nat.le_refl _,
-    fun _ r' h => Or.inl ⟨r', h, MSigLe.refl r'⟩, fun _ h => h.of_eq rfl rfl⟩
+    fun _ r' h => Or.inl ⟨r', h, MSigLe.refl r'⟩, fun _ h => h.of_eq rfl rfl,
+    Mono.of_parts _ _ (by simp [modTask]) (fun i tk a b => by
+      refine ⟨if t = i then f tk else tk, by simp [modTask, List.getElem?_modify, a], ?_⟩
+      split
+      · have := congrArg SoftP.phase (hs tk); exact this.trans b
+      · exact b) (Nat.le_refl _) (fun _ r a => ⟨r, a, rfl, rfl, fun _ h => h, fun h => h⟩) rfl⟩
 
 /-- any change confined to the requests (and the ready handles) is tame as far as pool slots, phases, registries,
 groups and callbacks are concerned -/
@@ -936,11 +997,28 @@ theorem tame0_of_eq (p q : Pool) (hs : q.sem = p.sem) (ht : q.tasks = p.tasks)
 theorem tame0_modReq (p : Pool) (m : Nat) (f : Req → Req) : Tame0 p (p.modReq m f) := tame0_of_eq _ _ rfl rfl
 
 /-- an update of a request that moves no map slot, given what it does to `CancOK` -/
+theorem _root_.Taskpool.Mono.modReq (p : Pool) (m : Nat) (f : Req → Req)
+    (hcr : ∀ x, x.created ≤ (f x).created ∧ x.pulled ≤ (f x).pulled)
+    (hsk : ∀ x s, x.cancelSnap = some s → (f x).cancelSnap = some s)
+    (hout : ∀ x, x.outcome.isSome = true → (f x).outcome.isSome = true) : Mono p (p.modReq m f) := by
+  refine ⟨Nat.le_refl _, fun _ tk a b => ⟨tk, a, b⟩, by simp [Pool.modReq], ?_, fun h => h⟩
+  intro i r a
+  refine ⟨if m = i then f r else r, by simp [Pool.modReq, List.getElem?_modify, a], ?_⟩
+  split
+  · exact ⟨(hcr r).1, (hcr r).2, hsk r, hout r⟩
+  · exact ⟨Nat.le_refl _, Nat.le_refl _, fun _ h => h, fun h => h⟩
+
 theorem tame_modReq_of (p : Pool) (m : Nat) (f : Req → Req) (hf : ∀ x, MSigLe (f x) x)
-    (hcok : ∀ E : Nat → Prop, CancEx E p → CancEx E (p.modReq m f)) : Tame p (p.modReq m f) := by
+    (hcok : ∀ E : Nat → Prop, CancEx E p → CancEx E (p.modReq m f))
+    (hsk : ∀ x s, x.cancelSnap = some s → (f x).cancelSnap = some s) : Tame p (p.modReq m f) := by
   refine ⟨⟨rfl, rfl, rfl, rfl, rfl, rfl, rfl, fun h => h, List.Sublist.refl _, fun _ tk' h => ⟨tk', h, rfl⟩, rfl,
     fun h => h.of_soft rfl rfl rfl (fun _ tk' h => ⟨tk', h, rfl⟩), fun h => h.of_eq rfl rfl, rfl⟩,
-    by simp [modReq], ?_, hcok⟩
+    by simp [modReq], ?_, hcok, Mono.modReq p m f
+      (fun x => by have := (hf x).cnt; exact ⟨Nat.le_of_eq (congrArg Cnt.created this).symm, Nat.le_of_eq (congrArg Cnt.pulled this).symm⟩)
+      hsk (fun x ho => by
+        cases hfo : (f x).outcome with
+        | none => rw [(hf x).out hfo] at ho; cases ho
+        | some _ => rfl)⟩
   intro i r' h
   simp only [modReq] at h
   obtain ⟨x, hx, rfl⟩ := getElem?_modify_some p.reqs m i f r' h
@@ -964,7 +1042,7 @@ theorem _root_.Taskpool.CancEx.modReq {E : Nat → Prop} {p : Pool} (hk : CancEx
 theorem tame_modReq (p : Pool) (m : Nat) (f : Req → Req)
     (hf : ∀ x, MSigLe (f x) x := by intro x; exact ⟨rfl, rfl, rfl, Nat.le_refl _, fun h => h, rfl, Or.inl rfl, fun h => h, fun h => h, fun _ => rfl, fun _ => Nat.le_refl _⟩)
     (hc : ∀ x, CSame (f x) x := by intro x; exact ⟨rfl, rfl, rfl, Or.inl rfl, fun h => Or.inl h, fun _ h => Or.inl h⟩) :
-    Tame p (p.modReq m f) := tame_modReq_of p m f hf (fun _ hk => hk.modReq m f hc)
+    Tame p (p.modReq m f) := tame_modReq_of p m f hf (fun _ hk => hk.modReq m f hc) (fun x s h => by rw [(hc x).cs]; exact h)
 
 /-- rewriting background call `a` without putting it (back) into its second gather or touching its snapshot -/
 theorem _root_.Taskpool.FlushOK.modApi {p : Pool} (h : FlushOK p) (a : Nat) (f : Api → Api)
@@ -988,7 +1066,7 @@ theorem tame_modApi_of (p : Pool) (m : Nat) (f : Api → Api) (hk : ∀ x, (f x)
     (hfok : FlushOK p → FlushOK (p.modApi m f)) : Tame p (p.modApi m f) := by
   refine ⟨⟨rfl, rfl, rfl, rfl, rfl, rfl, rfl, fun h => h, List.Sublist.refl _, fun _ tk' h => ⟨tk', h, rfl⟩, ?_,
     hfok, fun h => h.of_eq rfl rfl, rfl⟩, Nat.le_refl _, fun _ r' h => Or.inl ⟨r', h, MSigLe.refl r'⟩,
-    fun _ h => h.of_eq rfl rfl⟩
+    fun _ h => h.of_eq rfl rfl, Mono.of_eq _ _ rfl rfl rfl⟩
   simp only [modApi]
   apply List.ext_getElem?
   intro i
@@ -1035,7 +1113,7 @@ theorem tame_modGather (p : Pool) (g : Nat) (f : Gather → Gather) (hc : ∀ G,
         G.outer = some .ok ∨ ∀ t, Child.task t ∈ G.children → TaskFin p t) : Tame p (p.modGather g f) :=
   ⟨⟨rfl, rfl, rfl, rfl, rfl, rfl, rfl, fun h => h, List.Sublist.refl _, fun _ tk' h => ⟨tk', h, rfl⟩, rfl,
     fun h => h.modGather g f hc ho, fun h => h.of_eq rfl rfl, rfl⟩, Nat.le_refl _, fun _ r' h => Or.inl ⟨r', h, MSigLe.refl r'⟩,
-    fun _ h => h.of_eq rfl rfl⟩
+    fun _ h => h.of_eq rfl rfl, Mono.of_eq _ _ rfl rfl rfl⟩
 
 theorem tame_emitRef (p : Pool) (r) : Tame p (p.emitRef r) := tame_of_eq _ _ rfl rfl
 theorem tame_logEv (p : Pool) (r) : Tame p (p.logEv r) := tame_of_eq _ _ rfl rfl
@@ -1104,7 +1182,8 @@ theorem tame_cancelPoolWaiter (p : Pool) (m : Nat) :
      · cases hp
      · exact this hp, rfl⟩, Nat.le_refl _,
    fun _ r' h => Or.inl ⟨r', h, MSigLe.refl r'⟩,
-   fun _ h => h.frame (fun m' x => ownCancelled_cancel m m' _ x) (fun _ r' a => Or.inl ⟨r', a, CSame.refl r'⟩)⟩
+   fun _ h => h.frame (fun m' x => ownCancelled_cancel m m' _ x) (fun _ r' a => Or.inl ⟨r', a, CSame.refl r'⟩),
+   Mono.of_eq _ _ rfl rfl rfl⟩
 
 theorem snapReq_cases (x : Req) :
     snapReq x = x ∨ ((x.frame ≠ .running ∧ x.frame ≠ .done) ∧ x.cancelSnap = none ∧
@@ -1116,6 +1195,11 @@ theorem snapReq_cases (x : Req) :
     simp only [Bool.and_eq_true, Option.isNone_iff_eq_none, bne_iff_ne, ne_eq] at h
     exact ⟨⟨h.1.1, h.1.2⟩, h.2, rfl⟩
   · left; rfl
+
+theorem snapReq_keeps (y : Req) (s : Nat × Nat) (h : y.cancelSnap = some s) : (snapReq y).cancelSnap = some s := by
+  rcases snapReq_cases y with e | ⟨_, hn, _⟩
+  · rw [e]; exact h
+  · rw [hn] at h; cases h
 
 theorem _root_.Taskpool.MSigLe.snap {y x : Req} (h : MSigLe y x) : MSigLe (snapReq y) x := by
   rcases snapReq_cases y with e | ⟨hy, _, e⟩ <;> rw [e]
@@ -1186,7 +1270,7 @@ theorem tame_metaCancel (p : Pool) (m) : Tame p (p.metaCancel m) := by
         simp only [Bool.and_eq_true, beq_iff_eq] at hc
         refine Tame.trans (q := (({ p with sem := { p.sem with waiters := cancelWaiterL m p.sem.waiters } } : Pool).modReq m snapReq))
           ?_ (tame_schedMeta _ _)
-        refine (tame_cancelPoolWaiter p m).trans (tame_modReq_of _ m snapReq (fun x => (MSigLe.refl x).snap) ?_)
+        refine (tame_cancelPoolWaiter p m).trans (tame_modReq_of _ m snapReq (fun x => (MSigLe.refl x).snap) ?_ snapReq_keeps)
         intro E hk
         refine hk.snapAt m (fun _ x => x) ?_
         intro i r' h'
@@ -1213,7 +1297,7 @@ theorem tame_metaCancel (p : Pool) (m) : Tame p (p.metaCancel m) := by
             split at hp
             · cases hp
             · exact this hp
-          refine (tame_modReq_of p m _ (fun x => (hms x).snap) ?_).trans (tame_schedMeta _ _)
+          refine (tame_modReq_of p m _ (fun x => (hms x).snap) ?_ (fun x s h => snapReq_keeps _ s h)).trans (tame_schedMeta _ _)
           intro E hk
           refine hk.snapAt m (fun _ x => x) ?_
           intro i r' h'
@@ -1229,6 +1313,7 @@ theorem tame_metaCancel (p : Pool) (m) : Tame p (p.metaCancel m) := by
               exact Or.inr ⟨rfl, rfl, Or.inr (Or.inr ⟨hc.1, ownCancelled_of_pending m _ (getD_firstIsPending m _ hc.2)⟩)⟩
             · exact Or.inl rfl
         · refine tame_modReq_of p m _ (fun x => MSigLe.snap ⟨rfl, rfl, rfl, Nat.le_refl _, fun h => h, rfl, Or.inl rfl, fun h => h, fun h => h, fun _ => rfl, fun _ => Nat.le_refl _⟩) ?_
+            (fun x s h => snapReq_keeps _ s h)
           intro E hk
           refine hk.snapAt m (fun _ x => x) ?_
           intro i r' h'
